@@ -10,6 +10,10 @@
    None/bool    `_is_rooted_trees` and `tree.is_rooted` are `option bool`; `x is y`, `x != y` on
                 None/True/False are equality of option bool (singletons); truthiness of an
                 optional bool is "is True"
+   None/int     loop counters that start as None are `option Z`; `x != y` on them is (in)equality of
+                option Z; `x >= n` and `x += 1` on None raise TypeError (generated as a match)
+   yielder      the tree yielder of read_from_files is the list of (current_file_index, tree) pairs it
+                delivers (an input; a source without trees contributes no pair)
    numbers      Python ints and the floats of this code (weights, counts, totals: dyadic, in units of
                 2^-10) are Z; `1.0` is UNITW; `float(x)` of an int/float is the identity
    lists        Python lists and tuples are Coq lists; extend = ++, append = ++ [x], insert =
@@ -72,6 +76,7 @@ Definition py_is_none {A} (o : option A) : bool := match o with None => true | S
 Definition ob_is (a b : option bool) : bool := obool_eqb a b.        (* `is`, `==` on None/True/False *)
 Definition ob_truthy (o : option bool) : bool := match o with Some true => true | _ => false end.
 Definition b_is (a b : bool) : bool := Bool.eqb a b.
+Definition oz_is (a b : option Z) : bool := oz_eqb a b.              (* `==`, `!=` on None / int *)
 Definition ns_is : bool := true.
 Definition py_len {A} (l : list A) : Z := Z.of_nat (length l).
 Definition py_range (n : Z) : list Z := map Z.of_nat (seq 0 (Z.to_nat n)).
